@@ -1793,7 +1793,12 @@ impl SocketAddress for unix::net::SocketAddr {
     }
 
     unsafe fn init(storage: MaybeUninit<Self::Storage>, length: u32) -> Self {
-        debug_assert!(length as usize >= size_of::<libc::sa_family_t>());
+        if (length as usize) < size_of::<libc::sa_family_t>() {
+            // The kernel doesn't write an address (length zero) for an unnamed
+            // socket, e.g. when receiving a datagram from an unbound socket.
+            // SAFETY: unnamed (zero length) address is valid.
+            return unix::net::SocketAddr::from_pathname("").unwrap();
+        }
         // SAFETY: only creating a pointer to the address.
         let storage = unsafe { &raw const (*storage.as_ptr()).0 };
         let family = unsafe { ptr::addr_of!((*storage).sun_family).read() };
